@@ -67,6 +67,8 @@ THEOREMS = [
     "SqlglotModel.Properties.C12.eq_preserved_by_copy",
     "SqlglotModel.Properties.C12.eq_blind_to_type_comments_meta",
     "SqlglotModel.Properties.C12.eq_coarser_than_norm_witness",
+    "SqlglotModel.Properties.C12.cast_type_reads_audited",
+    "SqlglotModel.Properties.C12.view_id_of_no_rules",
     "SqlglotModel.Properties.C12.generated_ok",
     "SqlglotModel.Properties.C12.duplicate_keys_witness",
 ]
@@ -88,7 +90,11 @@ EXPECTED_SHAPE = {
     "load": ["if not payloads", "for tail", "if CLASS in payload", "if payload.get(IS_ARRAY)"],
     "_load": ["if class_name == DATA_TYPE", "if '.' in class_name", "if meta is not None"],
 }
-SHAPE_VARIANTS: dict = {}
+# accepted variant: pending_fixes/C12-dump-raw-type.diff dumps the raw `_type` field instead of the `type` property
+RAW_TYPE_GUARD = "if node._type is not None and node._type is not node"
+SHAPE_VARIANTS: dict = {
+    "dump": [[RAW_TYPE_GUARD if g == "if node.type and node.type is not node" else g for g in EXPECTED_SHAPE["dump"]]],
+}
 # the two dict comprehensions that encode / decode Expression-valued meta entries (ast.unparse of the assigned value)
 EXPECTED_ASSIGN = {
     ("dump", "payload[META]"): "{k: {META_EXPR: dump(v)} if isinstance(v, exp.Expr) else v for k, v in node._meta.items()}",
@@ -160,6 +166,55 @@ def _shape(fn: ast.FunctionDef, skip_then_of: tuple = ()) -> list:
 
     visit(_pruned(fn, skip_then_of))
     return out
+
+
+CAST_CLASS_NAMES = {"Cast", "TryCast", "JSONCast"}
+
+
+def cast_type_reads() -> list:
+    """every site outside sqlglot/expressions and serde.py that reads `.type` / `._type` of a name known to hold a
+    cast-class node: a parameter annotated exp.Cast / TryCast / JSONCast, the node parameter of a cast_sql / trycast_sql /
+    jsoncast_sql handler, or a name narrowed by isinstance(name, exp.Cast…) in the same function.  After load() such a
+    node carries a materialised `_type` (a detached copy of its target) where the parsed tree had None: a reader of that
+    field sees a different object than a reader of `.to`."""
+    import glob
+
+    def ann_is_cast(a):
+        if a is None:
+            return False
+        text = ast.unparse(a)
+        return any(("exp." + c) in text or text == c for c in CAST_CLASS_NAMES)
+
+    sites = set()
+    for f in sorted(glob.glob(os.path.join(REPO, "sqlglot", "**", "*.py"), recursive=True)):
+        rel = os.path.relpath(f, REPO).replace(os.sep, "/")
+        if rel.startswith("sqlglot/expressions/") or rel == "sqlglot/serde.py":
+            continue
+        try:
+            tree = ast.parse(open(f, encoding="utf-8").read())
+        except Exception:
+            continue
+        for fn in [n for n in ast.walk(tree) if isinstance(n, ast.FunctionDef)]:
+            names = set()
+            args = fn.args.args + fn.args.kwonlyargs
+            for a in args:
+                if ann_is_cast(a.annotation):
+                    names.add(a.arg)
+            if fn.name in ("cast_sql", "trycast_sql", "jsoncast_sql") and len(args) >= 2:
+                names.add(args[1].arg)
+            for n in ast.walk(fn):
+                if isinstance(n, ast.Call) and isinstance(n.func, ast.Name) and n.func.id == "isinstance" and len(n.args) == 2 \
+                        and isinstance(n.args[0], ast.Name):
+                    cls_names = ast.unparse(n.args[1]).replace("exp.", "").replace("(", "").replace(")", "").replace(" ", "").split(",")
+                    if any(c in CAST_CLASS_NAMES for c in cls_names):
+                        names.add(n.args[0].id)
+            if not names:
+                continue
+            for n in ast.walk(fn):
+                if isinstance(n, ast.Attribute) and n.attr in ("type", "_type") and isinstance(n.value, ast.Name) \
+                        and n.value.id in names:
+                    sites.add(f"{rel}:{fn.name}:{ast.unparse(n)}")
+    return sorted(sites)
 
 
 def translate(chk: Check) -> str:
@@ -243,9 +298,19 @@ def translate(chk: Check) -> str:
     cast_classes = sorted(class_name(c()) for c in live if getattr(c, "is_cast", False))
     dt_classes = sorted(class_name(c()) for c in live if getattr(c, "is_data_type", False))
     to_ok = all(isinstance(getattr(c, "to", None), property) and "to" in c.arg_types for c in live if getattr(c, "is_cast", False))
-    if not to_ok or not cast_classes or not dt_classes:
+    if not to_ok or not cast_classes or not dt_classes or not [c for c in live if getattr(c, "is_cast", False)]:
         shape_ok = False
         problems.append("is_cast classes without a `to` property/arg, or empty class tables")
+    # which field dump reads for TYPE: the `type` property (Cast falls back to `to`, DataType is itself) or raw `_type`
+    dumps_raw_type = "dump" in fns and RAW_TYPE_GUARD in _shape(fns["dump"])
+    if dumps_raw_type:
+        vals = [ast.unparse(n.value) for n in ast.walk(fns["dump"]) if isinstance(n, ast.Assign) and len(n.targets) == 1
+                and ast.unparse(n.targets[0]) == "payload[TYPE]"]
+        if vals != ["dump(node._type)"]:
+            shape_ok = False
+            problems.append(f"serde.dump: TYPE payload not recognised: {vals}")
+        cast_classes, dt_classes = [], []          # the model's `type` view is the identity then
+    chk.cov["dumps_raw_type"] = dumps_raw_type
     chk.cov["type_rules"] = {"cast": cast_classes, "data_type": dt_classes}
     # which face of a DType member travels: dump writes `node.value` / `node.name`; _load reads `exp.DType(x)` (by value)
     # / `exp.DType[x]` (by name); a decode anywhere else (e.g. a name-keyed table inside `load`) is "other"
@@ -298,6 +363,21 @@ def translate(chk: Check) -> str:
     lines.append("-- classes taking the special branches of Expression.type (live class attributes is_cast / is_data_type)")
     lines.append("def castClasses : List String := [" + ", ".join(lean_str(c) for c in cast_classes) + "]")
     lines.append("def dataTypeClasses : List String := [" + ", ".join(lean_str(c) for c in dt_classes) + "]")
+    # Cast.is_type must look at the target (`self.to`), not at `_type`
+    cast_is_type_ok = False
+    try:
+        fsrc = ast.parse(open(os.path.join(REPO, "sqlglot", "expressions", "functions.py"), encoding="utf-8").read())
+        for cls in [n for n in fsrc.body if isinstance(n, ast.ClassDef) and n.name == "Cast"]:
+            for fn in [n for n in cls.body if isinstance(n, ast.FunctionDef) and n.name == "is_type"]:
+                rets = [ast.unparse(n.value) for n in ast.walk(fn) if isinstance(n, ast.Return) and n.value is not None]
+                cast_is_type_ok = rets == ["self.to.is_type(*dtypes)"]
+    except Exception:
+        pass
+    reads = cast_type_reads()
+    chk.cov["cast_type_reads"] = reads
+    lines.append("-- sites that read `.type` / `._type` of a cast-class node (see cast_type_reads in c12.py); Cast.is_type uses self.to")
+    lines.append("def castTypeReads : List String := [" + ", ".join(lean_str(x) for x in reads) + "]")
+    lines.append(f"def castIsTypeUsesTo : Bool := {'true' if cast_is_type_ok else 'false'}")
     raw_arg_classes = sorted(class_name(c()) for c in live if getattr(c, "_hash_raw_args", False))
     chk.cov["hash_raw_arg_classes"] = raw_arg_classes
     lines.append("-- classes whose __hash__ folds raw arg values (_hash_raw_args)")
@@ -803,6 +883,48 @@ def constructed_trees(chk: Check, rounds: int):
     chk.cov["constructed_instances"] = n_inst
 
 
+CAST_SQLS_ALWAYS = [
+    "SELECT TRY_CAST(x AS INT)",
+    "SELECT TRY_CAST(a AS TEXT), TRY_CAST(b AS TIMESTAMP) FROM t",
+    "SELECT CAST(x AS DATE), CAST(y AS VARCHAR(10))",
+]
+CAST_SQLS_ROTATING = [
+    "SELECT CAST(x AS DECIMAL(10, 2))", "SELECT x::DATE", "SELECT SAFE_CAST(x AS STRING)", "SELECT CAST('1' AS DOUBLE) + 1",
+    "SELECT DATE '2020-01-01', TIMESTAMP '2020-01-01 00:00:00'", "SELECT CAST(x AS ARRAY<INT>)", "SELECT TRY_CAST(x AS Int32)",
+    "SELECT CAST(x AS Nullable(String))", "SELECT TRY_CAST(x AS JSON)", "SELECT CAST(x AS GEOGRAPHY)", "SELECT CAST(x AS TIMESTAMPTZ)",
+    "SELECT TRY_CAST(x AS DECIMAL(38, 0))", "SELECT CAST(x AS STRUCT<a INT, b TEXT>)", "SELECT CAST(x AS BIGINT) AS y FROM t WHERE TRY_CAST(z AS DATE) IS NULL",
+    "SELECT CAST(x AS INT FORMAT 'fmt')", "SELECT TRY_CAST(x AS DateTime64(3))", "SELECT CAST(x AS CHAR)", "SELECT 1::TEXT::INT",
+]
+
+
+def cast_corpus(chk: Check) -> list:
+    """casts / try-casts / typed literals parsed by EVERY dialect (un-annotated and annotated): the trees on which the
+    `type` property of a Cast falls back to its target, so that load() hands back a Cast whose `_type` is a detached copy.
+    Their SQL is compared in ALL dialects."""
+    sqlglot, exp, _ = sg()
+    from sqlglot.optimizer.annotate_types import annotate_types
+
+    rng = chk.rng
+    out = []
+    for d in all_dialects():
+        sqls = CAST_SQLS_ALWAYS + (rng.sample(CAST_SQLS_ROTATING, chk.pick(3, len(CAST_SQLS_ROTATING))))
+        for i, sql in enumerate(sqls):
+            try:
+                t = sqlglot.parse_one(sql, read=d)
+            except Exception:
+                chk.count("cast-corpus:parse-error")
+                continue
+            out.append(({"sql": sql, "dialect": d, "xf": "raw", "cast_corpus": True}, t))
+            if i < chk.pick(1, 99):
+                try:
+                    out.append(({"sql": sql, "dialect": d, "xf": "annotate", "cast_corpus": True},
+                                annotate_types(t.copy(), dialect=d)))
+                except Exception:
+                    chk.count("cast-corpus:annotate-error")
+    chk.cov["cast_corpus_trees"] = len(out)
+    return out
+
+
 def special_trees():
     """hand-picked shapes: the value kinds the property text names"""
     _, exp, _ = sg()
@@ -1290,7 +1412,7 @@ def same_tree(tj_a, tj_b):
     return first_diff(tj_a, tj_b)
 
 
-def oracle(t, dialects=SQL_DIALECTS, want=None, skip=(), sql_norm=False):
+def oracle(t, dialects=SQL_DIALECTS, want=None, skip=(), sql_norm=False, light=None):
     """The property's statement on the real code. Returns None, or (check, description).
     `want` restricts to one check name (used while minimising), `skip` leaves checks out.
     `sql_norm` (directly constructed trees only): the reference SQL is generated from the tree without its None-valued /
@@ -1377,8 +1499,14 @@ def oracle(t, dialects=SQL_DIALECTS, want=None, skip=(), sql_norm=False):
         if on(name + "sql") and dialects:
             if sqls is None:
                 sqls = sql_all(sql_ref, dialects)
-            s2 = sql_all(l, dialects)
-            for dname, x, y in zip(dialects, sqls, s2):
+            # `light`: the JSON / pickle routes share load() with the direct one: they get a smaller dialect set
+            if light is not None and route != "direct":
+                idxs = [i for i, dn in enumerate(dialects) if dn in light]
+            else:
+                idxs = list(range(len(dialects)))
+            ds_r = [dialects[i] for i in idxs]
+            s2 = sql_all(l, ds_r)
+            for dname, x, y in zip(ds_r, [sqls[i] for i in idxs], s2):
                 if x != y and not x.startswith("raised "):
                     return (name + "sql", f"{route}: .sql(dialect={dname}) differs: {x[:120]!r} vs {y[:120]!r}")
         if route == "pickle" and hashable and on("pickle-edit"):
@@ -1395,6 +1523,23 @@ def oracle(t, dialects=SQL_DIALECTS, want=None, skip=(), sql_norm=False):
                 raise
             except Exception:
                 pass
+    if want is None or want.startswith("raw-type"):
+        try:
+            l0 = serde.load(serde.dump(t))
+            ca, cb = list(t.walk()), list(l0.walk())
+            if len(ca) == len(cb):
+                for x, y in zip(ca, cb):
+                    if isinstance(x, exp.Expr) and isinstance(y, exp.Expr) and (x._type is None) != (y._type is None) \
+                            and not getattr(x, "is_data_type", False):
+                        name = "raw-type-" + ("cast" if getattr(x, "is_cast", False) else "other")
+                        if on(name):
+                            return (name, f"load(dump(t)) has _type {'set' if y._type is not None else 'None'} on a "
+                                          f"{type(x).__name__} where t has {'a type' if x._type is not None else 'None'}")
+                        break
+        except RecursionError:
+            raise
+        except Exception:
+            pass
     if want is None or want.startswith("alias-"):
         r = alias_checks(t, tj, serde, on)
         if r:
@@ -1558,9 +1703,15 @@ def size_of(tj):
 
 
 def minimise(t, check, dialects, sql_norm=False):
-    """delta-debug on the harness's JSON reading of the tree; falls back to the tree itself"""
+    """delta-debug on the harness's JSON reading of the tree (raw `_type` fields, so that a rebuilt candidate has
+    exactly the annotations of the original); falls back to the tree itself"""
+    global _RAW_TYPE
     try:
-        tj = conv(t)
+        _RAW_TYPE = True
+        try:
+            tj = conv(t)
+        finally:
+            _RAW_TYPE = False
         if not _fails(build(tj), check, dialects, sql_norm):
             return None, t
     except Exception:
@@ -1621,7 +1772,7 @@ def _fails(t, check, dialects, sql_norm=False):
     return r is not None and r[0] == check
 
 
-def consider(chk: Check, origin, t, dialects) -> bool:
+def consider(chk: Check, origin, t, dialects, light=None) -> bool:
     """run the oracle; every failing check of this tree is minimised, keyed and reported (a known finding on one
     check does not hide the others)"""
     # a check already matched to a known finding is not re-run on every further tree (its class is recorded once;
@@ -1632,7 +1783,7 @@ def consider(chk: Check, origin, t, dialects) -> bool:
     sql_norm = "constructed" in origin
     for _ in range(3):
         try:
-            res = oracle(t, dialects, skip=tuple(skip), sql_norm=sql_norm)
+            res = oracle(t, dialects, skip=tuple(skip), sql_norm=sql_norm, light=light)
         except RecursionError:
             chk.count("oracle:recursion-limit")
             return hit
@@ -1675,12 +1826,27 @@ def search(chk: Check, hints: list, pending: list, budget_s: float) -> None:
             break
         tried += 1
         found += consider(chk, origin, t, SQL_DIALECTS)
+    every = all_dialects()
+    # the cast corpus first: SQL compared in ALL dialects (JSON / pickle routes: base, read dialect, clickhouse)
+    for origin, t in [p for p in pending if p[0].get("cast_corpus")]:
+        if len(chk.violations) >= 4:
+            break
+        tried += 1
+        found += consider(chk, origin, t, every, light={None, origin.get("dialect"), "clickhouse"})
+        chk.case(("search-cast", json.dumps(origin, sort_keys=True, default=str)), nontrivial=True)
+    chk.cov["cast_corpus_s"] = round(time.time() - t0, 1)
     for origin, t in pending:
         if time.time() - t0 > budget_s or len(chk.violations) >= 4:
             break
+        if origin.get("cast_corpus"):
+            continue
         tried += 1
-        # every tree gets the structural checks; .sql() in a rotating subset of dialects
-        ds = quick_d if tried % 5 else SQL_DIALECTS
+        # every tree gets the structural checks; .sql() in the base dialect, the dialect it was parsed in, and a
+        # rotating subset of all dialects (every 5th tree: the fixed broad set)
+        if tried % 5:
+            ds = list(dict.fromkeys(quick_d + [origin.get("dialect")] + [every[(tried * 3 + i) % len(every)] for i in range(3)]))
+        else:
+            ds = SQL_DIALECTS
         if consider(chk, origin, t, ds):
             found += 1
         chk.case(("search", json.dumps(origin, sort_keys=True, default=str)), nontrivial=True,
@@ -1752,6 +1918,7 @@ def run(chk: Check) -> None:
     trees = special_trees()
     trees += list(constructed_trees(chk, chk.pick(2, 6)))
     n_constructed = len(trees)
+    trees += cast_corpus(chk)
     for origin, t in parsed_trees(chk, chk.pick(160, 900), chk.pick(2, 5)):
         trees.append((origin, t))
         chk.count("tree:" + origin["xf"])
